@@ -59,7 +59,8 @@ ReadTag(r) == CASE r \in {"o1.f", "o1[f]", "o3.inner.f", "o3[inner][f]"} -> 1
                 [] r \in {"o2.f", "o2[f]"} -> 2
                 [] r = "bare" -> 0
 
-Moves == {"direct", "var", "var2", "arg", "list", "return", "restore", "destruct", "for", "spreadlist", "reassign"}
+Moves == {"direct", "var", "var2", "arg", "list", "return", "restore", "destruct", "for", "spreadlist", "reassign",
+          "rangeassign", "concat", "slice", "restparam"}
 MoveStmts(m, e) ==
     CASE m = "direct"  -> <<SPrint(ECall(e, <<>>))>>
       [] m = "var"     -> <<SDecl(Nm(G), e), SPrint(ECall(Nm(G), <<>>))>>
@@ -73,6 +74,13 @@ MoveStmts(m, e) ==
       [] m = "spreadlist" -> <<SDecl(Nm(G), EListOf(<<Spread(EList(<<e>>))>>)),
                                SPrint(ECall(EIndex(Nm(G), I(0)), <<>>))>>
       [] m = "reassign" -> <<SDecl(Nm(G), I(0)), SAssign(Nm(G), e), SPrint(ECall(Nm(G), <<>>))>>
+      [] m = "rangeassign" -> <<SDecl(Nm(G), EList(<<I(0), I(0)>>)), SAssign(ERIndex(Nm(G), I(1), I(2)), EList(<<e>>)),
+                                SPrint(ECall(EIndex(Nm(G), I(1)), <<>>))>>
+      [] m = "concat" -> <<SDecl(Nm(G), EBin("+", EList(<<I(0)>>), EList(<<e>>))), SDecl(Nm(H), EIndex(Nm(G), I(1))),
+                           SPrint(ECall(Nm(H), <<>>))>>
+      [] m = "slice" -> <<SDecl(Nm(G), ERIndex(EList(<<I(0), e>>), I(1), ENone)), SDecl(Nm(H), EIndex(Nm(G), I(0))),
+                          SPrint(ECall(Nm(H), <<>>))>>
+      [] m = "restparam" -> <<SFn(G, <<Nm(H)>>, TRUE, <<SReturn(ECall(EIndex(Nm(H), I(0)), <<>>))>>), SPrint(ECall(Nm(G), <<e>>))>>
 MoveTag(m, tag) == IF m = "restore" THEN 9 ELSE tag
 
 \* a first carrier, then a second move
@@ -163,6 +171,17 @@ Lexical ==
                                      SReturn(ECall(Nm(G), <<>>))>>))>>)),
                          SPrint(ECall(EProp(Nm(O1), FK), <<>>)),
                          SDecl(Nm(H), EProp(Nm(O1), FK)), SPrint(ECall(Nm(H), <<>>))>>,
+      \* every call has its own `this`: calling a closure through another object does not disturb the `this` of
+      \* the method it was made in, nor of the method that is running
+      closurerebind |-> <<SDecl(Nm(O1), EObj(<<Pair(EStr(TAG), I(1)),
+                              Pair(EStr(<<109, 107>>), EFunc(<<>>, FALSE, <<SReturn(EFunc(<<>>, FALSE, <<SReturn(ThisTag)>>))>>))>>)),
+                          SDecl(Nm(G), ECall(EProp(Nm(O1), <<109, 107>>), <<>>)),
+                          SDecl(Nm(O2), EObj(<<Pair(EStr(TAG), I(2)), Pair(EStr(<<103, 101, 116>>), Nm(G)),
+                              Pair(EStr(<<119, 104, 111>>), EFunc(<<Nm(H)>>, FALSE,
+                                   <<SReturn(EList(<<ECall(EProp(Nm(H), <<103, 101, 116>>), <<>>), ThisTag>>))>>))>>)),
+                          SPrint(ECall(Nm(G), <<>>)), SPrint(ECall(EProp(Nm(O2), <<103, 101, 116>>), <<>>)), SPrint(ECall(Nm(G), <<>>)),
+                          SDecl(Nm(O3), EObj(<<Pair(EStr(TAG), I(3)), Pair(EStr(<<103, 101, 116>>), Nm(G))>>)),
+                          SPrint(ECall(EProp(Nm(O2), <<119, 104, 111>>), <<Nm(O3)>>)), SPrint(ECall(Nm(G), <<>>))>>,
       typefnvar |-> <<SDecl(Nm(G), ETProp(EStr(<<97, 98>>), N_len)), SPrint(ECall(Nm(G), <<>>)),
                       SDecl(Nm(H), ETProp(EList(<<>>), N_type)), SPrint(ECall(Nm(H), <<>>))>> ]
 
